@@ -20,3 +20,18 @@ func (s *Server) VerifRemoveSession(sess *yamux.Session) { s.removeSession(sess)
 func (s *Server) VerifHandler() http.Handler { return s.httpServer.Handler }
 
 func (s *Server) VerifManager() Manager { return s.upstreams }
+
+// VerifBalancer returns the upstreams registered for the endpoint in load
+// balancer order and the round-robin cursor.
+func (m *LoadBalancedManager) VerifBalancer(endpointID string) ([]Upstream, int, bool) {
+	m.mu.Lock()
+	defer m.mu.Unlock()
+
+	lb, ok := m.localUpstreams[endpointID]
+	if !ok {
+		return nil, 0, false
+	}
+	ups := make([]Upstream, len(lb.upstreams))
+	copy(ups, lb.upstreams)
+	return ups, lb.nextIndex, true
+}
